@@ -175,6 +175,22 @@ def check_printf(record, events_py, verdict_prints, tol=True):
                         break
                 except Exception:
                     pass
+        if not ok and got_ev[0] == 'out':
+            # a register named in the format: whether it holds 0 or 0.0 after the units were switched (or it was read from
+            # a light) is not documented either - the whole-number registers are tried as floats as well
+            regs = [spec['n'] for spec in node['named'] if spec.get('reg') and isinstance(named.get(spec['n']), int)
+                    and not isinstance(named.get(spec['n']), bool)][:4]
+            for mask in itertools.product((False, True), repeat=len(regs)):
+                trial_named = dict(named)
+                for n, as_float in zip(regs, mask):
+                    if as_float:
+                        trial_named[n] = float(named[n])
+                try:
+                    if fmt.format(*args, **trial_named) == got_ev[1]:
+                        ok = True
+                        break
+                except Exception:
+                    pass
         if not ok:
             return 'printf wrote %r, the source says %r' % (got_ev[1] if len(got_ev) > 1 else got_ev, want)
     return None
